@@ -10,8 +10,12 @@ delimited_table  parse_delimited_table  (whitespace / printable delimiters, max_
 kv               split_kv_pairs + get_active_lines
 search           keyword_search
 ini              IniConfigFile over insights.parsr.iniparser
+
+Round 4: the text that is rendered into cells / values / names is drawn over the whole alphabet the
+format admits at that position (minus the characters that have a role there), not over a short list.
 """
 import collections
+import string
 
 from hypothesis import strategies as st
 
@@ -22,18 +26,25 @@ RULE = ("fixed_table: 1-7 distinct space-free headers, each new header either fr
         "earlier one (prefix/suffix added or removed, so headers are substrings of earlier and later "
         "headers), cells empty / with inner spaces / exactly as wide as the column, optional "
         "indentation, junk lines + heading_ignore, footer lines + trailing_ignore, blank rows, "
-        "same-length header_substitute, rows right-stripped or padded; non-trivial = an empty cell and a "
+        "same-length header_substitute, rows right-stripped or padded, one cell in three over every "
+        "printable non-blank character, cells of one repeated character and whole rows that look like a "
+        "ruler / separator line; non-trivial = an empty cell and a "
         "header that is a substring of another. delimited_table: delimiter None or printable, "
         "max_splits with a delimiter-carrying rest field, strip on/off, header_delim, raw_line_key, "
-        "short rows; non-trivial = blank cell or rest field or short row. kv: key/sep/value lines with "
+        "short rows, cells over every printable character that is not part of the active delimiter (the "
+        "other delimiters included); non-trivial = blank cell or rest field or short row. kv: key/sep/value lines with "
         "padding, inline comments, comment lines that look like pairs, blanks, separator-free lines, "
         "duplicate keys, values containing the separator, 4 comment strings x 5 separators, "
         "use_partition/ordered/filter_string; non-trivial = duplicate key and inline comment. search: rows "
         "over keys with spaces/dashes, str/None and heterogeneous columns, 1-3 conditions over all "
         "matcher suffixes; non-trivial = some but not all rows match. ini: sections (repeated, padded "
         "headers), options in mixed case with duplicates, = and : separators, #/; comment and blank "
-        "lines, indented continuation lines, typed values; non-trivial = duplicate option differing only "
-        "in case. Distinct by the whole case.")
+        "lines, indented continuation lines, typed values; values built from words and punctuation tokens "
+        "over the grammar's whole value alphabet except '#' (glued or blank-separated, so ';', '=', ':', "
+        "brackets, quotes, backslash, '//', '%%' ... occur word-initial, inside, word-final and standalone), "
+        "optionally wrapped like quoting / interpolation of other dialects; names one time in three over the "
+        "grammar's whole key / header alphabet; non-trivial = duplicate option differing only in case. "
+        "Distinct by the whole case.")
 ASSUMPTIONS = [
     "the renderers below implement the documented formats (column = header label plus the white space "
     "to its right; first separator splits; comment string to end of line; INI as in the IniConfigFile "
@@ -42,7 +53,7 @@ ASSUMPTIONS = [
 EXCLUDED = [
     "fixed tables: header cells containing spaces (except one replaced through a same-length "
     "header_substitute), duplicate headers, cells wider than their column, data rows starting with a "
-    "footer marker, junk lines starting with a heading_ignore target, tabs",
+    "footer marker while trailing_ignore is given, junk lines starting with a heading_ignore target, tabs",
     "delimited tables: delimiter characters inside cells (except the rest field under max_splits), "
     "whitespace inside multi-character delimiters, rows longer than the header, empty or duplicate "
     "headings, with strip=False white space at the outer edges of a row",
@@ -51,8 +62,9 @@ EXCLUDED = [
     "separator; suffix matchers on non-string cells; no conditions at all (documented: returns [])",
     "INI: the DEFAULT section (inheritance is not part of the statement; with repeated sections it "
     "overrides explicit options - noted in design.d), options without separator, non-ASCII text, '#' "
-    "and ';' inside values, values ending in a backslash or equal to '[', comment lines indented "
-    "deeper than the options, options before the first section",
+    "inside values (the helper's own inline comment - not part of the statement), values ending in a "
+    "backslash or equal to '[', comment lines indented deeper than the options (hence continuation lines "
+    "starting with ';'), vertical tab / form feed, options before the first section",
 ]
 
 # ------------------------------------------------------------------------------------------------
@@ -61,7 +73,10 @@ EXCLUDED = [
 
 _HCH = "ABCDIPUX01%_/"
 _fresh_header = st.text(alphabet=_HCH, min_size=1, max_size=6)
-_CELLCH = list(u"abcdeopxyz0123456789-./:%ABCXYZ") + [u"é"]
+# cell text: usually words over the plain characters, one cell in three over every printable character that is not
+# white space; '#' and '=' are footer markers only at the start of a row (see _fixed_case)
+_CELL_PLAIN = list(u"abcdeopxyz0123456789-./:%ABCXYZ") + [u"é"]
+_CELL_PUNCT = list(u",;|=#()[]\"'@+*?<>!&$~^{}\\`_")
 FOOT_MARKERS = ["==", "Total", "#", "=", "Tot"]
 
 
@@ -93,9 +108,14 @@ def _headers(draw, lo=1, hi=7):
     return hs
 
 
-_CELL_A = st.sampled_from(_CELLCH)
-_CELL_AS = st.sampled_from(_CELLCH + [" ", " "])
-_CELL_KIND = st.sampled_from(["empty", "word", "word", "spaced", "full"])
+_CELL_ALPHA = {      # (wide, with inner spaces) -> alphabet
+    (False, False): st.sampled_from(_CELL_PLAIN), (False, True): st.sampled_from(_CELL_PLAIN + [" "] * 4),
+    (True, False): st.sampled_from(_CELL_PLAIN + _CELL_PUNCT), (True, True): st.sampled_from(_CELL_PLAIN + _CELL_PUNCT + [" "] * 8),
+}
+_CELL_WIDE = st.sampled_from([False, False, True])
+# "rep": one character repeated - placeholders and cells that look like a ruler or a separator ("-", "--", "====", "***", "...")
+_CELL_KIND = st.sampled_from(["empty", "word", "word", "spaced", "full", "rep"])
+_CELL_REP = st.sampled_from(list(u"---==*._~+#x0"))
 _CELL_MARK = st.sampled_from([False] * 7 + [True])
 
 
@@ -113,8 +133,10 @@ def _cell(draw, width):
     kind = draw(_CELL_KIND)
     if kind == "empty" or lim == 0:
         return ""
+    if kind == "rep":
+        return draw(_CELL_REP) * draw(st.integers(1, min(lim, 6)))
     lo = lim if kind == "full" else 1
-    s = _unblank_edges(draw(st.text(alphabet=_CELL_AS if kind == "spaced" else _CELL_A, min_size=lo, max_size=lim)))
+    s = _unblank_edges(draw(st.text(alphabet=_CELL_ALPHA[(draw(_CELL_WIDE), kind == "spaced")], min_size=lo, max_size=lim)))
     if kind != "full" and len(s) < lim and draw(_CELL_MARK):
         # footer-marker characters are ordinary cell text anywhere but at the start of a row
         s = s + draw(st.sampled_from(["#", "=", "==", "Total"]))[:lim - len(s)]
@@ -137,7 +159,13 @@ def _fixed_case(draw):
     widths[-1] = None
     rows = []
     for _ in range(draw(st.integers(0, 6))):
-        rows.append([draw(_cell(w)) for w in widths])
+        if draw(st.integers(0, 7)) == 0:
+            # a data row that looks like decoration (ruler under the heading, separator between groups): the
+            # same character repeated in every cell, some cells empty
+            ch = draw(_CELL_REP)
+            rows.append([ch * draw(st.integers(0, min(12 if w is None else w, 6))) for w in widths])
+        else:
+            rows.append([draw(_cell(w)) for w in widths])
     blanks = draw(st.lists(st.tuples(st.integers(0, 6), st.sampled_from(["", "   "])), max_size=2))
     # junk never *starts* with the first header; it may mention it further right
     junk = draw(st.lists(st.one_of(st.text(alphabet="abcdefg :,.#", min_size=0, max_size=12),
@@ -149,6 +177,12 @@ def _fixed_case(draw):
     if footer and draw(st.booleans()):
         footer.insert(draw(st.integers(0, len(footer))), "")
     use_ti = bool(footer) or draw(st.integers(0, 3)) == 0
+    if use_ti:
+        # X: a data row does not start with a footer marker
+        for r in rows:
+            j = next((j for j, c in enumerate(r) if c), None)
+            if j is not None and r[j][0] in "#=":
+                r[j] = "x" + r[j][1:]
     return {"headers": hs, "gaps": gaps, "rows": rows, "blanks": [list(b) for b in blanks], "junk": junk,
             "heading_ignore": use_hi, "footer": footer, "trailing_ignore": use_ti, "subst": subst,
             "indent": draw(st.sampled_from([0, 0, 0, 1, 4])), "rstrip": draw(st.booleans()),
@@ -222,6 +256,12 @@ def check_fixed(case):
                        ("blank-row", bool(case["blanks"])), ("header_substitute", bool(case["subst"])),
                        ("indent", case["indent"] > 0),
                        ("inner-space", any(" " in c for r in case["rows"] for c in r)),
+                       ("cell-with-punctuation", any(ch in c for r in case["rows"] for c in r for ch in u",;|()[]\"'@+*?<>!&$~^{}\\`")),
+                       ("row-of-repeated-characters", any(any(r) and all(len(set(c)) <= 1 and not c.isalnum() for c in r) for r in case["rows"])),
+                       ("first-row-looks-like-ruler", bool(case["rows"]) and any(case["rows"][0])
+                        and not "".join(case["rows"][0]).strip(" -=")),
+                       ("row-starts-with-marker-char", any(r[j][0] in "#=" for r in case["rows"] for j in
+                                                           [next((j for j, c in enumerate(r) if c), None)] if j is not None)),
                        ("all-empty-row", any(all(c == "" for c in r) for r in case["rows"]))):
         if flag:
             labels.append(name)
@@ -236,21 +276,33 @@ DELIMS = [None, None, "|", ",", ":", ";", "::", "=>"]
 _DCH = list(u"abcdexyz0123456789-./%_ABC") + [u"é"]     # never a delimiter character, never ~ or @
 
 
-_D_A = st.sampled_from(_DCH)
-_D_AS = st.sampled_from(_DCH + [" "])
-_D_WORD = st.text(alphabet=_D_A, min_size=1, max_size=7)
-_D_SPACED = st.text(alphabet=_D_AS, min_size=1, max_size=7).map(lambda s: _unblank_edges(s) if s.strip() else "x")
-_D_CELLS = {
-    (False, False): _D_WORD,
-    (False, True): st.one_of(_D_WORD, _D_WORD, _D_WORD, _D_SPACED),
-    (True, False): st.one_of(st.just(""), _D_WORD, _D_WORD, _D_WORD),
-    (True, True): st.one_of(st.just(""), _D_WORD, _D_WORD, _D_WORD, _D_SPACED),
-}
+# further printable characters a cell may hold as long as they are not part of the *active* delimiter - in
+# particular the other delimiters ("a:b|c,d" under delim="|"); never '~' / '@' (junk and footer markers here)
+_D_OTHER = list("|,:;=>#!$&*+?()[]{}'\"<^\\`")
+
+
+def _d_cells(alpha):
+    a = st.sampled_from(alpha)
+    word = st.text(alphabet=a, min_size=1, max_size=7)
+    spaced = st.text(alphabet=st.sampled_from(alpha + [" "]), min_size=1, max_size=7).map(lambda s: _unblank_edges(s) if s.strip() else "x")
+    return {
+        (False, False): word,
+        (False, True): st.one_of(word, word, word, spaced),
+        (True, False): st.one_of(st.just(""), word, word, word),
+        (True, True): st.one_of(st.just(""), word, word, word, spaced),
+    }
+
+
+_D_CELLS = _d_cells(_DCH)                                   # headings
+_D_CELLS_BY_DELIM = dict((d, _d_cells(_DCH + _DCH + [c for c in _D_OTHER if d is None or c not in d])) for d in DELIMS)
+# (data cells; the plain characters are listed twice so that they make up most of the text)
 _D_PADS = st.sampled_from([["", ""], ["", ""], [" ", ""], ["", " "], ["  ", "   "], [" ", " "], ["", "  "]])
 
 
-def _dcell(allow_empty, allow_space):
-    return _D_CELLS[(bool(allow_empty), bool(allow_space))]
+def _dcell(allow_empty, allow_space, delim="heading"):
+    if delim == "heading":
+        return _D_CELLS[(bool(allow_empty), bool(allow_space))]
+    return _D_CELLS_BY_DELIM[delim][(bool(allow_empty), bool(allow_space))]
 
 
 @st.composite
@@ -266,13 +318,13 @@ def _delim_case(draw):
     rows = []
     for _ in range(draw(st.integers(0, 6))):
         k = nf if draw(st.integers(0, 3)) else draw(st.integers(1, nf))      # short rows
-        cells = draw(st.lists(_dcell(delim is not None, delim is not None), min_size=k, max_size=k))
+        cells = draw(st.lists(_dcell(delim is not None, delim is not None, delim), min_size=k, max_size=k))
         if max_splits is not None and k == max_splits + 1 and draw(st.booleans()):
             # the rest field may contain the delimiter
             if delim is None:
-                cells[-1] = draw(_dcell(False, False)) + draw(st.sampled_from([" ", "  ", "   "])) + draw(_dcell(False, True))
+                cells[-1] = draw(_dcell(False, False, delim)) + draw(st.sampled_from([" ", "  ", "   "])) + draw(_dcell(False, True, delim))
             else:
-                cells[-1] = draw(_dcell(True, True)) + delim + draw(_dcell(True, True))
+                cells[-1] = draw(_dcell(True, True, delim)) + delim + draw(_dcell(True, True, delim))
         if delim is None and not cells[0]:
             cells[0] = "x"
         if len(cells) == 1 and not cells[0]:
@@ -389,7 +441,10 @@ def check_delim(case):
     rest = ms is not None and any(len(r["cells"]) == ms + 1 and ((case["delim"] or " ") in r["cells"][-1]) for r in case["rows"])
     short = any(len(r["cells"]) < len(case["headers"]) for r in case["rows"])
     blank = any(c == "" for r in case["rows"] for c in r["cells"])
+    other = any(c in cell for r in case["rows"] for cell in r["cells"] for c in "|,:;=>" if c not in (case["delim"] or ""))
+    punct = any(c in cell for r in case["rows"] for cell in r["cells"] for c in "#!$&*+?()[]{}'\"<^\\`")
     for name, flag in (("rest-field-with-delimiter", rest), ("short-row", short), ("blank-cell", blank),
+                       ("cell-with-other-delimiter", other), ("cell-with-punctuation", punct),
                        ("max_splits", ms is not None), ("header_delim", case["header_delim"] != "same"),
                        ("raw_line_key", bool(case["raw_line_key"])), ("junk", bool(case["junk"])),
                        ("footer", bool(case["footer"])), ("header_substitute", "header_substitute" in kw)):
@@ -660,11 +715,22 @@ def check_search(case):
 # INI
 # ------------------------------------------------------------------------------------------------
 
+# Alphabets: what the grammar admits at each position (insights.parsr.iniparser: header_chars = printable
+# non-space characters but '[' ']' plus the blank; key_chars = header_chars without '=' ':'; value_chars = every
+# printable character but the line ends), minus the characters that have a role *at that position*: '#' cuts a
+# value (inline comment), '#'/';' in the first column make the line a comment.  Names are drawn over the short
+# alphabets two times in three (so that they still collide and stay readable), over the whole alphabet otherwise.
 _SEC_FIRST = "abcXYZ019_"
 _SEC_CH = list("abcXYZ019_-.:=#;%/ ")
+_SEC_CH_ALL = _SEC_CH + list("abXZ01  ") + [c for c in string.punctuation if c not in "[]_-.:=#;%/"]
 _KEY_FIRST = "abkKXY01_"
 _KEY_CH = list("abkKXY01_-.#;%/ ")
+_KEY_CH_ALL = _KEY_CH + list("abkKXY01  ") + [c for c in string.punctuation if c not in "[]=:_-.#;%/"]
 _VAL_CH = list("abcXYZ0123 _-.,:=/%[]()'\"\t@!")
+_VAL_PUNCT = [c for c in string.punctuation if c != "#"]
+# characters that mean something elsewhere in the format: comment, separators, header brackets, line
+# continuation, quoting, interpolation
+_VAL_ROLE = list(";;;=:[]\\\"'%$!")
 BOOLS = {"1": True, "0": False, "yes": True, "no": False, "true": True, "false": False, "on": True, "off": False}
 
 
@@ -672,21 +738,46 @@ def _ini_text(first, chars, hi):
     return st.builds(lambda a, b: (a + b).strip(), st.sampled_from(list(first)), st.text(alphabet=st.sampled_from(chars), max_size=hi))
 
 
+def _ini_clean(s):
+    """a value as the helper can return it: no white space at the edges, no trailing line-continuation backslash
+    (X), never the lone '[' that opens a nested block (X)"""
+    s = s.strip().rstrip(" \t\\")
+    return s if s and s != "[" else "v"
+
+
+# words and punctuation tokens, glued or separated by blanks: every admitted character occurs at the start of a
+# word, inside a word, at its end and on its own ("a;b", "a ;b", "a; b", "a ; b", ";a")
+_ini_tok = st.one_of(st.text(alphabet="abcXYZ0123", min_size=1, max_size=4), st.text(alphabet="abcXYZ0123", min_size=1, max_size=4),
+                     st.sampled_from(_VAL_PUNCT), st.sampled_from(_VAL_ROLE),
+                     st.sampled_from(_VAL_PUNCT).map(lambda c: c + c))        # "//", "--", "%%", ";;", "::", "$$" ...
+_ini_glue = st.sampled_from(["", "", " ", " ", "  ", "\t"])
+_ini_tokens = st.lists(st.tuples(_ini_tok, _ini_glue), min_size=1, max_size=5).map(lambda ps: _ini_clean("".join(t + g for t, g in ps)))
+# ... and wrapped like the quoting / interpolation constructs of other INI dialects (plain text for this helper)
+_ini_wrapped = st.builds(lambda w, s: w[0] + s + w[1], st.sampled_from([['"', '"'], ["'", "'"], ["%(", ")s"], ["${", "}"], ["(", ")"], ["{", "}"]]),
+                         _ini_tokens)
+
 _ini_val = st.one_of(
     st.just(""),
     st.text(alphabet=st.sampled_from(_VAL_CH), min_size=1, max_size=10).map(lambda s: s.strip()).filter(lambda s: s not in ("[",)),
+    _ini_tokens,
+    _ini_tokens,
+    _ini_tokens,
+    _ini_wrapped,
     st.sampled_from(["[x]", "k = v", "a:b", "1", "[sec]", "x y  z"]),
 )
+# a continuation line that starts with ';' is a comment look-alike (X: comment lines indented deeper than the options)
+_ini_cont = _ini_val.map(lambda s: "c" + s if s[:1] in ("", ";") else s)
 
 
 @st.composite
 def _ini_case(draw):
     # (names that merely contain the word DEFAULT are ordinary sections; the DEFAULT section itself is excluded)
-    sec_pool = draw(st.lists(st.one_of(_ini_text(_SEC_FIRST, _SEC_CH, 6), _ini_text(_SEC_FIRST, _SEC_CH, 6), _ini_text(_SEC_FIRST, _SEC_CH, 6),
+    sec_pool = draw(st.lists(st.one_of(_ini_text(_SEC_FIRST, _SEC_CH, 6), _ini_text(_SEC_FIRST, _SEC_CH, 6), _ini_text(_SEC_FIRST, _SEC_CH_ALL, 6),
                                        st.sampled_from(["DEFAULTS", "NODEFAULT", "x DEFAULT y", "default", "Default"])),
                              min_size=1, max_size=3, unique=True))
     sec_pool = [s for s in sec_pool if s != "DEFAULT"] or ["s"]
-    base_keys = draw(st.lists(_ini_text(_KEY_FIRST, _KEY_CH, 5), min_size=1, max_size=4, unique_by=lambda s: s.lower()))
+    base_keys = draw(st.lists(st.one_of(_ini_text(_KEY_FIRST, _KEY_CH, 5), _ini_text(_KEY_FIRST, _KEY_CH, 5), _ini_text(_KEY_FIRST, _KEY_CH_ALL, 5)),
+                              min_size=1, max_size=4, unique_by=lambda s: s.lower()))
     blocks = []
     for _ in range(draw(st.integers(1, 4))):
         items = []
@@ -712,7 +803,7 @@ def _ini_case(draw):
                 cont = []
                 if kind == "str" and val and draw(st.integers(0, 3)) == 0:
                     for _ in range(draw(st.integers(1, 2))):
-                        ctext = draw(_ini_val.filter(lambda s: s != ""))
+                        ctext = draw(_ini_cont)
                         cont.append([draw(st.integers(1, 4)), ctext])
                 items.append({"t": "opt", "name": k, "sep": draw(st.sampled_from(["=", "=", ":"])),
                               "pads": [draw(st.sampled_from(["", " ", "  "])), draw(st.sampled_from(["", " ", "   "])),
@@ -726,7 +817,7 @@ def _ini_case(draw):
                 items.append({"t": "blank", "text": draw(st.sampled_from(["", "", "  "]))})
         blocks.append({"name": draw(st.sampled_from(sec_pool)), "hpads": [draw(st.sampled_from(["", "", " ", "  "])),
                                                                             draw(st.sampled_from(["", "", " "]))],
-                       "trail": draw(st.sampled_from(["", "", " ", "  # c"])), "items": items})
+                       "trail": draw(st.sampled_from(["", "", "", " ", "  # c", " ; c"])), "items": items})
     lead = draw(st.lists(st.sampled_from(["# lead", "", "; x = 1", "  ", "#[no]"]), max_size=2))
     return {"indent": draw(st.sampled_from([0, 0, 0, 2])), "lead": lead, "blocks": blocks}
 
@@ -822,6 +913,24 @@ def check_ini(case):
         labels.add("colon-separator")
     if any(it["t"] == "opt" and it["val"] == "" for b in case["blocks"] for it in b["items"]):
         labels.add("empty-value")
+    # where the characters that have a role elsewhere in the format occur inside values
+    texts = [t for b in case["blocks"] for it in b["items"] if it["t"] == "opt" and it["kind"] == "str"
+             for t in [it["val"]] + [c[1] for c in it["cont"]]]
+    for name, flag in (("value-with-semicolon", any(";" in t for t in texts)),
+                       ("value-blank-then-semicolon", any(" ;" in t or "\t;" in t for t in texts)),
+                       ("value-starts-with-semicolon", any(t.startswith(";") for t in texts)),
+                       ("value-with-separator-char", any("=" in t or ":" in t for t in texts)),
+                       ("value-with-bracket", any("[" in t or "]" in t for t in texts)),
+                       ("value-with-backslash", any("\\" in t for t in texts)),
+                       ("value-with-quote", any("'" in t or '"' in t for t in texts)),
+                       ("value-other-punctuation", any(c in t for t in texts for c in "$&*+<>?^`{|}~")),
+                       ("continuation-with-semicolon", any(";" in c[1] for b in case["blocks"] for it in b["items"]
+                                                           if it["t"] == "opt" for c in it["cont"])),
+                       ("name-other-punctuation", any(c in n for n in list(model) + [k for o in model.values() for k in o]
+                                                      for c in "$&*+<>?^`{|}~\\\"'!@,()")),
+                       ("header-trailing-comment", any(b["trail"].strip() for b in case["blocks"]))):
+        if flag:
+            labels.add(name)
     if case["indent"]:
         labels.add("indented-options")
     if any("DEFAULT" in n for n in model):
